@@ -9,7 +9,7 @@ from pyvc.bounded import bounded
                         'kopf._cogs.configs.progress.StatusProgressStorage.store', 'kopf._cogs.configs.progress.StatusProgressStorage.purge',
                         'kopf._cogs.configs.progress.MultiProgressStorage.store', 'kopf._cogs.configs.progress.MultiProgressStorage.purge',
                         'kopf._cogs.configs.diffbase.AnnotationsDiffBaseStorage.store', 'kopf._cogs.configs.diffbase.StatusDiffBaseStorage.store'],
-         props=['C16', 'C02', 'C03', 'C04', 'C06', 'C08', 'C14', 'C15'],
+         props=['C16', 'C02', 'C03', 'C04', 'C06', 'C08', 'C14', 'C15', 'C05'],
          clauses=['last_write_wins', 'sequence_leaves_others_alone', 'diffbase_last_write_wins'],
          universe='progress storages: status + Annotations/Smart/Multi x 3 prefixes x v1 {T,F} (19); object state for the id: no record / record X / '
                   'record Y (as left by an earlier applied store), in 2 bodies (user data shared with another operator; ReplicaSet of a Deployment); '
